@@ -9,7 +9,8 @@ namespace Tbox.C12
 request has been seen (this is what the patched feed loop guarantees, `C12_no_request_after_close`),
 a response can only be committed for a request that was delivered, and — the send-side contract
 of BufferedFd assumed here (property C06) — send-complete is reported only when every byte handed
-to `send` has been written to the socket. Peer close (`drop`), peer half-close, write errors and
+to `send` has been written to the socket, or after a write on the socket has failed for good (BufferedFd
+drops what a failed direct write could not send, its buffer is empty and the event still fires). Peer close (`drop`), peer half-close, write errors and
 kernel progress may occur anywhere. -/
 def traceOk : Pipe → List PipeOp → Bool
   | _, [] => true
@@ -17,7 +18,7 @@ def traceOk : Pipe → List PipeOp → Bool
     (match op with
       | .req _ => p.closeIndex.isNone
       | .commit i _ => decide (i < p.reqIndex)
-      | .sendComplete => !p.valid || decide (p.sent = p.handed.length)
+      | .sendComplete => !p.valid || p.wbroken || decide (p.sent = p.handed.length)
       | .drop => true
       | .kernel _ => true
       | .writeError => true
